@@ -47,6 +47,8 @@ class Mappers:
     def deser(self, parent, data):
         if "o" in data:
             o = self.pool.objs[data["o"]]
+            if "type" in data and data["type"] != flavour(o):
+                raise ValueError(f"the entry handed to the deserialization mapper carries type={data['type']!r} for an object of type {flavour(o)!r}")
             if dataclasses.is_dataclass(o):
                 return dataclasses.replace(o)   # a new, equal object
             return o
